@@ -320,6 +320,37 @@ def run_ctor(ns, case):
         chk("randn", sg.randn(*shp, **kw), shp, dt, None, flag, pred=lambda a: bool(np.all(np.isfinite(a))))
         chk("rand:tuple", sg.rand(shp, **kw), shp, dt, None, flag, pred=lambda a: bool(np.all((a >= 0) & (a < 1))))
         chk("normal", sg.normal(3.0, 0.0, *shp, **kw), shp, dt, np.full(shp, 3.0), flag)
+        # reach monitor: the tuple / list shape forms of the Gaussian factory were never driven
+        chk("randn:tuple", sg.randn(shp, **kw), shp, dt, None, flag, pred=lambda a: bool(np.all(np.isfinite(a))))
+        chk("randn:list", sg.randn(list(shp), **kw), shp, dt, None, flag, pred=lambda a: bool(np.all(np.isfinite(a))))
+        chk("rand:list", sg.rand(list(shp), **kw), shp, dt, None, flag, pred=lambda a: bool(np.all((a >= 0) & (a < 1))))
+        big_ = sg.randn(4000, **kw)
+        if abs(float(np.mean(big_.data))) > 0.12 or abs(float(np.std(big_.data)) - 1) > 0.1:      # 7.6 sigma / 9 sigma at n = 4000
+            viol.append(V("ctor:randn:distribution", "randn is not standard normal", mean=float(np.mean(big_.data)), std=float(np.std(big_.data))))
+    # item(): the single element, as a number; several elements cannot be converted
+    one_ = ns.Tensor(np.array([[2.5]], dtype=np.float64))
+    try:
+        if float(one_.item()) != 2.5 or float(ns.Tensor(np.float64(-1.25)).item()) != -1.25:
+            viol.append(V("item:value", "item() of a one-element tensor is not its element"))
+        keys.append(("item", "value"))
+    except Exception as e:
+        viol.append(V("item:raises", f"item() of a one-element tensor raised {type(e).__name__}"))
+    try:
+        got_ = ns.Tensor(np.arange(3.0)).item()
+        viol.append(V("item:several-elements-answered", f"item() of a 3-element tensor returned {got_!r}"))
+    except Exception:
+        keys.append(("item", "refused"))
+    # reflected matmul with a plain nested list on the left (NumPy arrays take the other path through ndarray.__matmul__)
+    try:
+        m_ = rng.standard_normal((3, 2))
+        r_ = [[1.0, 2.0, 3.0], [0.5, -1.0, 0.0]] @ ns.Tensor(m_)
+        if tuple(r_.shape) != (2, 2) or not np.allclose(np.asarray(r_.data, dtype=np.float64), np.array([[1.0, 2.0, 3.0], [0.5, -1.0, 0.0]]) @ m_, rtol=1e-6, atol=1e-6):
+            viol.append(V("operator:rmatmul-list:value", "list @ Tensor differs from the matrix product"))
+        keys.append(("rmatmul", "list"))
+    except Exception as e:
+        pass            # a refusal is fine (undocumented operand type)
+    if rank >= 1:
+        pass
     lo, hi = -3, 4
     ti = sg.randint(lo, hi, shp if rank else (2,))
     chk("randint", ti, shp if rank else (2,), None, None, False,
